@@ -31,6 +31,8 @@ def worlds(tier):
         w.W("indep2-1cpu-FIFO-freq", w.indep(2, deadline=10 ** 6), w.C1, "FIFO", split=7, freq="sym", weight=60),
         w.W("indep2-1cpu-LSF-delay", w.indep(2, deadline=10 ** 6), w.C1, "LSF", split=7, delay="sym", weight=60),
         w.W("indep2-2cpu-EDF-periodic-scheduler-tasks-run-side-by-side", w.indep(2, release=0), w.C2, "EDF", split=7, freq=["sym", 4, 9], weight=60, tasks=small(("T0", "T1"))),
+        w.W("second-graph-released-at-a-time-written-in-milliseconds-EDF", [w.G("G0", ["T0"], [], release=0, deadline=10 ** 6), dict(w.G("G1", ["T1"], [], release=["sym", 0, 2], deadline=10 ** 6), release_unit="MS")],
+            w.C1, "EDF", split=5, weight=10, tasks={"T0": {"strategies": [{"rt": ["sym", 1, 400]}]}, "T1": {"strategies": [{"rt": ["sym", 1, 9]}]}}),
         w.W("chain2-1cpu-EDF-run_at_worker_free", w.chain(2), w.C1, "EDF", split=5, run_at_worker_free=True),
         w.W("planahead-names-AZ-1cpu-havoc", w.fixed_times(named("Alpha", "Zulu")), w.C1, "HAVOC", split=6, havoc=dict(hv, max_unplaced=0), tasks=small(("Alpha", "Zulu"))),
         w.W("planahead-names-ZA-1cpu-havoc", w.fixed_times(named("Zulu", "Alpha")), w.C1, "HAVOC", split=6, havoc=dict(hv, max_unplaced=0), tasks=small(("Zulu", "Alpha"))),
